@@ -26,6 +26,8 @@ for d in sorted(glob.glob(os.path.join(V, "seeded", "*"))):
     for p, c in sorted((m.get("checks_run") or {}).items()):
         if c["exit"] == 1:
             caught.append("%s: %s" % (p, ", ".join("`%s`" % s for s in c["signatures"][:2])))
-    res = "; ".join(caught) if caught else ("not counted: see scope_note in meta.json (%s)" % ("superseded by a later fix" if m.get("detected_before_fix_9b34606") else "outside the property's quantifier") if m.get("scope_note") else "**missed**")
+    res = "; ".join(caught) if caught else ("not counted: see scope_note in meta.json (%s)" % ("superseded by a later fix" if m.get("superseded_by_fix") else "outside the property's quantifier") if m.get("scope_note") else "**missed**")
+    if caught and m.get("superseded_by_fix"):
+        res += " (on the tree it was written for; superseded by fix `%s`, see scope_note)" % m["superseded_by_fix"]
     short = lambda s, n: (s if len(s) <= n else s[:n - 3] + "...").replace("|", "\\|").replace("\n", " ")
     print("| %s | %s | %s | %s |" % (name, short(m.get("title", ""), 110), short(m.get("needs_to_manifest", ""), 170), res))
